@@ -1,0 +1,152 @@
+//go:build verif
+
+package art
+
+import "unsafe"
+
+// Verification hooks (build tag "verif"): a bare inner node driven without a
+// tree around it, and raw access to the in-node search primitives.
+
+type verifDummyLeaf struct{ id int }
+
+// VerifNodeHandle owns one inner node, created the way Insert creates one
+// (a 4-slot node taken from the pool). Children are dummy leaves carrying an id.
+type VerifNodeHandle struct {
+	ref nodeRef
+}
+
+func VerifNewNode() *VerifNodeHandle {
+	n4 := nodePools[nodeKind4].Get().(*node4)
+	return &VerifNodeHandle{ref: nodeRef{pointer: unsafe.Pointer(n4), tag: nodeKind4}}
+}
+
+// Add registers a new child under b (the caller guarantees b is not present,
+// as Insert does).
+func (h *VerifNodeHandle) Add(b byte, id int) {
+	leaf := nodeRef{pointer: unsafe.Pointer(&verifDummyLeaf{id: id}), tag: nodeKindLeaf}
+	h.ref.addChild(b, leaf)
+}
+
+// Remove unregisters the child under b (the caller guarantees b is present,
+// as Delete does).
+func (h *VerifNodeHandle) Remove(b byte) {
+	h.ref.deleteChild(b)
+}
+
+// Collapsed reports that the node has been replaced by its last child.
+func (h *VerifNodeHandle) Collapsed() bool { return h.ref.tag == nodeKindLeaf }
+
+func (h *VerifNodeHandle) Find(b byte) (int, bool) {
+	c := h.ref.findChild(b)
+	if c == nil || c.pointer == nil {
+		return 0, false
+	}
+	if c.tag != nodeKindLeaf {
+		return -1, true
+	}
+	return (*verifDummyLeaf)(c.pointer).id, true
+}
+
+// Class returns 4, 16, 48, 256, or 0 for a collapsed handle.
+func (h *VerifNodeHandle) Class() int {
+	switch h.ref.tag {
+	case nodeKind4:
+		return 4
+	case nodeKind16:
+		return 16
+	case nodeKind48:
+		return 48
+	case nodeKind256:
+		return 256
+	}
+	return 0
+}
+
+func (h *VerifNodeHandle) RecordedLen() int {
+	if h.ref.tag == nodeKindLeaf {
+		return 0
+	}
+	return int(h.ref.node().childrenLen)
+}
+
+func verifRestoreDummy(p unsafe.Pointer) (int, int) {
+	return (*verifDummyLeaf)(p).id, 0
+}
+
+// Children runs the library's own ascending traversal over the node.
+func (h *VerifNodeHandle) Children() []int {
+	var ids []int
+	for id := range all[int, int](h.ref, verifRestoreDummy) {
+		ids = append(ids, id)
+	}
+	return ids
+}
+
+// ChildrenBackward runs the library's own descending traversal over the node.
+func (h *VerifNodeHandle) ChildrenBackward() []int {
+	var ids []int
+	for id := range backward[int, int](h.ref, verifRestoreDummy) {
+		ids = append(ids, id)
+	}
+	return ids
+}
+
+// First and Last use the library's minimum/maximum descent.
+func (h *VerifNodeHandle) First() int {
+	return (*verifDummyLeaf)(minimum[int](h.ref)).id
+}
+
+func (h *VerifNodeHandle) Last() int {
+	return (*verifDummyLeaf)(maximum[int](h.ref)).id
+}
+
+// Keys4 / Keys16 expose the key array of a node in the 4- or 16-slot class
+// together with the recorded fan-out, so the raw primitives can be compared with
+// a scalar scan on states the library itself produced.
+func (h *VerifNodeHandle) Keys4() (uint32, int, bool) {
+	if h.ref.tag != nodeKind4 {
+		return 0, 0, false
+	}
+	n4 := (*node4)(h.ref.pointer)
+	return n4.keys, int(n4.childrenLen), true
+}
+
+func (h *VerifNodeHandle) Keys16() ([16]byte, int, bool) {
+	if h.ref.tag != nodeKind16 {
+		return [16]byte{}, 0, false
+	}
+	n16 := (*node16)(h.ref.pointer)
+	return n16.keys, int(n16.childrenLen), true
+}
+
+// Release hands the node back to the pool the way the library does.
+func (h *VerifNodeHandle) Release() {
+	switch h.ref.tag {
+	case nodeKind4:
+		n := (*node4)(h.ref.pointer)
+		n.clear()
+		nodePools[nodeKind4].Put(n)
+	case nodeKind16:
+		n := (*node16)(h.ref.pointer)
+		n.clear()
+		nodePools[nodeKind16].Put(n)
+	case nodeKind48:
+		n := (*node48)(h.ref.pointer)
+		n.clear()
+		nodePools[nodeKind48].Put(n)
+	case nodeKind256:
+		n := (*node256)(h.ref.pointer)
+		n.clear()
+		nodePools[nodeKind256].Put(n)
+	}
+	h.ref = nodeRef{}
+}
+
+func VerifSearchNode4(keys uint32, b byte) int    { return searchNode4(keys, b) }
+func VerifInsertPosNode4(keys uint32, b byte) int { return insertPosNode4(keys, b) }
+func VerifSearchNode16(keys *[16]byte, n uint8, b byte) int {
+	return searchNode16(keys, n, b)
+}
+func VerifInsertPosNode16(keys *[16]byte, n uint8, b byte) int {
+	return insertPosNode16(keys, n, b)
+}
